@@ -6,23 +6,23 @@
 (* Every event must be the corresponding action of Search.tla with the logged values: the packet handed *)
 (* out (label, slot), whether it was expanded, skipped (verified label) or the queue was exhausted, the  *)
 (* number of stored rule keys and of labels afterwards; the answer of every specification check.        *)
-EXTENDS Naturals, Sequences, TLC, Json, IOUtils
-R(ch, pe, ip, wk, tw) == [ch |-> ch, pe |-> pe, ip |-> ip, wk |-> wk, tw |-> tw]
-U == [start |-> 0, empty |-> {}, verified |-> {1}, initial |-> (2 :> <<R(<<1, 0>>, FALSE, TRUE, TRUE, TRUE)>>), expand |-> (0 :> <<R(<<1, 2>>, TRUE, FALSE, TRUE, TRUE)>>)] \* @UNIVERSE@
-VARIABLES store, empt, q, rules, marks, tried, expanded, skipped, phase, checks, i
+EXTENDS Naturals, Sequences, FiniteSets, TLC, Json, IOUtils
+R(ch, pe, ip, wk, tw, sh) == [ch |-> ch, pe |-> pe, ip |-> ip, wk |-> wk, tw |-> tw, sh |-> sh]
+U == [start |-> 0, empty |-> {}, verified |-> {1}, ninit |-> 1, nexp |-> 1, flavour |-> "base", initial |-> (2 :> << <<R(<<1, 0>>, FALSE, TRUE, TRUE, TRUE, <<0, 1>>)>> >>), expand |-> (0 :> << <<R(<<1, 2>>, TRUE, FALSE, TRUE, TRUE, <<0, 0>>)>> >>)] \* @UNIVERSE@
+VARIABLES store, empt, q, rules, keys, marks, tried, expanded, skipped, phase, checks, i
 INSTANCE Search
 Trace == ndJsonDeserialize(IOEnv.TRACE_FILE)[1]
 Ev == Trace.events
-NKeys(rs) == Cardinality({<<r.s, r.e>> : r \in rs})
+NKeys(s) == IF U.flavour = "forest" THEN Cardinality(s.keys) ELSE Cardinality({<<r.s, r.e>> : r \in s.rules})
 TInit == SInit /\ i = 1
 TPacket == /\ i <= Len(Ev) /\ Ev[i].op = "packet"
            /\ LET r == PacketStep(Cur) IN
               /\ r.kind = Ev[i].kind
               /\ (r.kind # "stop" => r.p.l = Ev[i].l /\ r.p.k = Ev[i].k)
-              /\ NKeys(r.s.rules) = Ev[i].nrules /\ Len(r.s.store) = Ev[i].nlabels
+              /\ NKeys(r.s) = Ev[i].nrules /\ Len(r.s.store) = Ev[i].nlabels
            /\ Packet /\ i' = i + 1
 TCheck == /\ i <= Len(Ev) /\ Ev[i].op = "check"
-          /\ HasSpecOf(rules) = Ev[i].ans
+          /\ HasSpecS(Cur) = Ev[i].ans
           /\ Check /\ i' = i + 1
 TNext == TPacket \/ TCheck
 \* accepted iff the whole trace was consumed
